@@ -14,7 +14,7 @@ ROUTES = [  # index = position in StoneCli!RouteList (1-based)
     ('nsa', 'rb', 1, dict(a1='y', a2=1, a3=True, a4='x')),
     ('nsa', 'rb', 2, dict(a1='x', a2=2, a3=True, a4=None)),
     ('nsa', 'rc', 1, dict(a1='y', a2=2, a3=True, a4='y')),
-    ('nsb', 'rd', 1, dict(a1='x', a2=1, a3=False, a4='x')),
+    ('nsb', 'ra', 1, dict(a1='x', a2=1, a3=False, a4='x')),     # same name and version as nsa.ra
     ('nsb', 're', 1, dict(a1='y', a2=1, a3=False, a4=None)),
     ('nsb', 'rf', 1, dict(a1='x', a2=2, a3=False, a4='y')),
     ('nsc', 'rg', 1, dict(a1='y', a2=2, a3=False, a4=None)),
